@@ -289,8 +289,15 @@ package middleware
 
 //@ func NewMessageHasherAdler32
 //@   nopanic
-//@   ensures result != nil && closurevar(result, "middleware.NewMessageHasherAdler32$1", "readLimit") == (readLimit < 64 ? 64 : readLimit) [the-hasher-reads-up-to-the-given-limit-but-at-least-64-bytes]
+//@   ensures result != nil && isclosure(result, "middleware.NewMessageHasherAdler32$1") && closurevar(result, "middleware.NewMessageHasherAdler32$1", "readLimit") == (readLimit < 64 ? 64 : readLimit) [the-hasher-reads-up-to-the-given-limit-but-at-least-64-bytes]
 
 //@ func PoisonQueue$1
 //@   nopanic
 //@   ensures result [without-a-filter-every-error-qualifies-for-the-poison-queue]
+
+//@ func applyDefaultsToDeduplicator
+//@   maypanic
+//@   modifies d.KeyFactory, d.Repository, d.Timeout
+//@   ensures result != nil && result.KeyFactory != nil [a-usable-deduplicator]
+//@   ensures old(d == nil || d.KeyFactory == nil) ==> isclosure(result.KeyFactory, "middleware.NewMessageHasherAdler32$1") && closurevar(result.KeyFactory, "middleware.NewMessageHasherAdler32$1", "readLimit") == 9223372036854775807 [without-a-key-factory-the-key-is-the-Adler-32-checksum-of-the-whole-payload]
+//@   ensures old(d != nil && d.KeyFactory != nil) ==> result == d && result.KeyFactory == old(d.KeyFactory) [a-configured-key-factory-is-kept]
